@@ -106,6 +106,10 @@ class SchedRunner(Base):
 
         def create(si, sc):
             tt = [tuple(x) for x in sc['timetable']]
+            if sc.get('share_tuples'):
+                # equal entries are one and the same tuple object (day = (8, 'on'); [day, night, day])
+                cache = {}
+                tt = [cache.setdefault(x, x) for x in tt]
             kw = {}
             if sc['cyclical'] is not None:
                 kw['is_cyclical'] = sc['cyclical']
@@ -113,6 +117,12 @@ class SchedRunner(Base):
             s = HSched(tt, name=f'sched{si}', **kw)
             s.sidx = si
             self.scheds[si] = s
+            if sc.get('mutate_list'):
+                # the caller goes on using its list: the scheduler must have taken a copy
+                tt[0] = (99, 'tampered')
+                tt.append((0.125, 'tampered'))
+                del tt[1:2]
+                self.bump('caller_list_mutated')
             if system._simulation_is_initialized:
                 # created late: it starts at once, before anything can be registered with it
                 self.bump('late_created_scheduler')
@@ -173,7 +183,11 @@ class SchedRunner(Base):
         si, k = op['s'], op['obj']
         if self.scheds[si] is None:
             return
-        if op['op'] == 'register':
+        if op['op'] == 'readd':
+            # add_asset on an asset that is already registered must change nothing
+            self.lib.System.add_asset(self.scheds[si])
+            self.bump('explicit_duplicate_add_asset')
+        elif op['op'] == 'register':
             self.do_register(si, k, op.get('ov', False))
             self.bump('register_during_run')
         else:
@@ -237,7 +251,8 @@ def gen_sched(rng):
                 pre.append([k, rng.random() < 0.4])
         if pre and rng.random() < 0.2:
             pre.append(list(pre[0]))      # duplicate registration: must be ignored
-        sc = {'timetable': tt, 'cyclical': cyc, 'pre': pre}
+        sc = {'timetable': tt, 'cyclical': cyc, 'pre': pre, 'share_tuples': rng.random() < 0.5,
+              'mutate_list': rng.random() < 0.2}
         x = rng.random()
         if x < 0.15:
             sc['create_at'] = [rng.choice((0.25, 0.5, 1, 2.5)), rng.choice((2, 5, 11, 11.5))]
@@ -249,7 +264,7 @@ def gen_sched(rng):
     if n_objs:
         for _ in range(rng.choice((0, 0, 2, 5, 10))):
             ops.append({'t': rng.choice([x * 0.25 for x in range(0, int(horizon * 4) + 1)]),
-                        'pr': rng.choice((10, 10.5, 11, 11, 11.5, 5)), 'op': rng.choice(('register', 'unregister')),
+                        'pr': rng.choice((10, 10.5, 11, 11, 11.5, 5)), 'op': rng.choice(('register', 'unregister', 'register', 'unregister', 'readd')),
                         's': rng.randrange(len(scheds)), 'obj': rng.randrange(n_objs), 'ov': rng.random() < 0.4})
     ops.sort(key=lambda o: (o['t'], -o['pr']))
     plan = [horizon] if (rng.random() < 0.7 and not any(sc.get('create_at') == 'between' for sc in scheds)) else [horizon * 0.25, horizon * 0.75]
@@ -330,10 +345,24 @@ class SensorRunner(Base):
         class Target:
             pass
 
+        class Cond:
+            """a record object: hashable (default identity hash) and mutable"""
+            def __init__(self, v):
+                self.v = v
+
+            def __eq__(self, other):
+                return isinstance(other, Cond) and self.v == other.v
+
+            __hash__ = object.__hash__
+
+            def __repr__(self):
+                return f'Cond({self.v})'
+
         self.target = tgt = Target()
         tgt.x = 0
         tgt.lst = [0]
         tgt.y = 'init'
+        tgt.cond = Cond(0)
         # a small line with a processor that output-part sensors watch
         ln = case['line']
 
@@ -374,10 +403,10 @@ class SensorRunner(Base):
                 kw['data_capacity'] = sc['cap']
             if sc['k'] == 'periodic':
                 probes = [mk_probe(p, tgt) for p in sc['probes']]
-                s = lib.PeriodicSensor(sc['interval'], probes, name=f'sensor{si}', **kw)
+                s = lib.PeriodicSensor(sc['interval'], probes, name=sc.get('name', f'sensor{si}'), **kw)
             else:
                 probes = [mk_probe(p, None) for p in sc['probes']]
-                s = lib.OutputPartSensor(proc, probes, sc['n'], name=f'sensor{si}', **kw)
+                s = lib.OutputPartSensor(proc, probes, sc['n'], name=sc.get('name', f'sensor{si}'), **kw)
             self.sidx_of[id(s)] = si
             self.sensors.append(s)
             self.sensor_probes.append(probes)
@@ -386,6 +415,7 @@ class SensorRunner(Base):
             for ci, times in sc.get('cms', []):
                 for _ in range(times):
                     cms_list[ci].add_sensor(s)
+        self.manual = False
         self.finished = []       # parts finished by the processor, in order (harness callback)
         proc.add_finish_processing_callback(lambda p, part: self.finished.append(
             (env.now, part.id, part.quality, part.value, part)))
@@ -409,13 +439,16 @@ class SensorRunner(Base):
 
     def mk_cb(self, si, ci, sc):
         def cb(sensor, time, values):
-            part = self.finished[-1][4] if (sc['k'] == 'output' and self.finished) else None
+            part = None
             if sc['k'] == 'output':
-                # the OutputPartSensor runs inside the processor's finish callbacks: the part being finished
-                part = self.proc._output
+                if self.manual:
+                    part = self.sensor_probes[si][0].target       # whatever the probes were last pointed at
+                else:
+                    # the OutputPartSensor runs inside the processor's finish callbacks: the part being finished
+                    part = self.proc._output
             self.cb_log.append((si, ci, sensor is self.sensors[si], time, copy.deepcopy(values),
                                 self.read_probes(sc, part), self.env.now, self.step_no,
-                                part.id if part is not None else None))
+                                part.id if part is not None else None, self.manual))
         return cb
 
     def exec_op(self, op):
@@ -426,7 +459,19 @@ class SensorRunner(Base):
             t.y = f"v{op['v']}"
         elif k == 'append':
             t.lst.append(op['v'])      # in-place mutation: stored samples must not change
+            t.cond.v = op['v']
             self.bump('inplace_mutation')
+        elif k == 'manual':
+            # an extra measurement requested by hand on an output-part sensor: the automatic cadence must not move
+            outs = [i for i, sc in enumerate(self.case['sensors']) if sc['k'] == 'output']
+            if outs:
+                si = outs[op['v'] % len(outs)]
+                self.manual = True
+                try:
+                    self.sensors[si].sense()
+                finally:
+                    self.manual = False
+                self.bump('manual_sense')
         elif k == 'fail':
             self.proc.schedule_failure(self.env.now)
         elif k == 'restore':
@@ -480,15 +525,20 @@ class SensorRunner(Base):
                 n = sc['n']
                 fin = self.finished
                 exp_idx = list(range(0, len(fin), n + 1))
-                count = len(exp_idx)
+                n_manual = len([c for c in mine if c[1] == 0 and c[9]]) if ncb else self.stats['reach'].get('manual_sense', 0)
+                count = len(exp_idx) + (n_manual if ncb else 0)
+                if not ncb and self.stats['reach'].get('manual_sense', 0):
+                    count = None
                 if ncb:
-                    got_ids = [c[8] for c in meas]
+                    got_ids = [c[8] for c in meas if not c[9]]
                     exp_ids = [fin[i][1] for i in exp_idx]
                     if got_ids != exp_ids:
                         self.fail('C19.e', f'sensor {si} (sensing interval {n}): measured parts {got_ids[:10]}, expected '
                                   f'the 1st and then every {n + 1}-th finished part: {exp_ids[:10]} '
                                   f'({len(fin)} parts finished)', 'measured_parts')
-                self.stats['parts_measured'] = self.stats.get('parts_measured', 0) + count
+                self.stats['parts_measured'] = self.stats.get('parts_measured', 0) + (count or 0)
+            if count is None:
+                continue       # manual measurements on a sensor without harness callbacks: count not observable
             # (d) trimming and alignment
             cap = sc.get('cap')
             keep = count if cap is None else min(count, cap)
@@ -535,7 +585,7 @@ def gen_sensor(rng):
         cap = rng.choice((None, 1, 2, 3, 5))
         ncb = rng.choice((1, 1, 2, 3))
         if rng.random() < 0.6:
-            probes = [rng.choice((['attr', 'x'], ['attr', 'lst'], ['fn', 'y'], ['attr', 'missing'], ['fn', 'lst']))
+            probes = [rng.choice((['attr', 'x'], ['attr', 'lst'], ['fn', 'y'], ['attr', 'missing'], ['fn', 'lst'], ['attr', 'cond'], ['fn', 'cond']))
                       for _ in range(rng.randint(1, 3))]
             sc = {'k': 'periodic', 'interval': rng.choice((0.25, 0.5, 1, 3, 0.1, 0.7)), 'probes': probes}
         else:
@@ -545,11 +595,13 @@ def gen_sensor(rng):
         sc['cap'] = cap
         sc['callbacks'] = ncb
         sc['cms'] = [[ci, rng.choice((1, 1, 2))] for ci in range(n_cms) if rng.random() < 0.6]
+        if rng.random() < 0.25:
+            sc['name'] = 'same_name'     # names need not be unique
         sensors.append(sc)
     ops = []
     tg = [x * 0.25 for x in range(0, int(horizon * 4) + 1)]
     for _ in range(rng.choice((0, 3, 8, 20))):
-        k = rng.choice(('set', 'set', 'append', 'append', 'fail', 'restore', 'shutdown', 'restore'))
+        k = rng.choice(('set', 'set', 'append', 'append', 'fail', 'restore', 'shutdown', 'restore', 'manual'))
         ops.append({'t': rng.choice(tg), 'pr': rng.choice((2, 3.5, 4, 4.5, 6, 9, 11)), 'op': k, 'v': rng.randrange(100)})
     ops.sort(key=lambda o: (o['t'], -o['pr']))
     plan = [horizon] if rng.random() < 0.7 else [horizon * 0.5, horizon * 0.5]
